@@ -53,7 +53,21 @@ LEAK_ALLOWED = {
     "Channel.Global|cls_field": (2, "search loop with break: the field named 'addressing'"),
     "ChannelSamples.modulate|block": (2, "deliberately the last EOM block: `block.tf is None` <=> the sequence ends in EOM mode"),
     "Sequence._set_slm_mask_dmm|key": (1, "search loop with break: the DMM name that was just declared"),
-    "switch_device|call": (2, "not a leak: the later reads are inside a comprehension with its own `call`"),
+}
+
+
+# public methods / properties that return one of the object's private attributes as it is (no copy, no conversion):
+# confirmed by reading that the attribute is immutable (number, string, tuple, frozen object) or deliberately shared
+DIRECT_RETURN_ALLOWED = {
+    "ConstantWaveform.duration": "int", "RampWaveform.duration": "int", "BlackmanWaveform.duration": "int", "InterpolatedWaveform.duration": "int",
+    "KaiserWaveform.duration": "int", "CustomWaveform.duration": "int", "CompositeWaveform.duration": "int",
+    "InterpolatedWaveform.interp_function": "the interpolator object (callable, not edited by callers)",
+    "Callback.uuid": "str", "Observable.tag": "str", "StateRepr.n_qudits": "int",
+    "RemoteResults.results": "tuple of results", "RemoteResults.batch_id": "str", "RemoteResults.job_ids": "list kept by the remote handle (not part of the claimed properties)",
+    "ParamObj.variables": "internal protocol of Parametrized (read by the owning sequence only)", "ParamObj.build": "the built instance is the result",
+    "BaseRegister.qubit_ids": "tuple", "MappableRegister.qubit_ids": "tuple", "MappableRegister.layout": "frozen RegisterLayout",
+    "ChannelSamples.centered_phase": "bool", "Sequence.device": "frozen device", "Sequence.register": "register (immutable API)",
+    "Hamiltonian.config": "NoiseModel (frozen dataclass)", "QutipEmulator.total_duration_ns": "int", "QutipEmulator.initial_state": "qutip.Qobj handed back as stored",
 }
 
 
@@ -132,11 +146,19 @@ def check(E: Engine, rep: Report, pid: str, rule: str = "NET", extra_modules: tu
             continue
         counts: dict = {}
         first: dict = {}
+        # names bound by a comprehension are its own: reads inside it are not reads of an outer loop variable
+        comp_bound: set = set()
+        for cmp_ in ast.walk(f.node):
+            if isinstance(cmp_, (ast.ListComp, ast.SetComp, ast.DictComp, ast.GeneratorExp)):
+                bound = {y.id for g_ in cmp_.generators for y in ast.walk(g_.target) if isinstance(y, ast.Name)}
+                for y in ast.walk(cmp_):
+                    if isinstance(y, ast.Name) and y.id in bound:
+                        comp_bound.add(id(y))
         for lp in [x for x in ast.walk(f.node) if isinstance(x, ast.For)]:
             for nm in {y.id for y in ast.walk(lp.target) if isinstance(y, ast.Name)}:
                 stores = [y.lineno for y in ast.walk(f.node) if isinstance(y, ast.Name) and y.id == nm and isinstance(y.ctx, ast.Store)]
                 for y in ast.walk(f.node):
-                    if isinstance(y, ast.Name) and y.id == nm and isinstance(y.ctx, ast.Load) and y.lineno > lp.end_lineno and not any(lp.end_lineno < s_ <= y.lineno for s_ in stores):
+                    if isinstance(y, ast.Name) and y.id == nm and isinstance(y.ctx, ast.Load) and id(y) not in comp_bound and y.lineno > lp.end_lineno and not any(lp.end_lineno < s_ <= y.lineno for s_ in stores):
                         counts[nm] = counts.get(nm, 0) + 1
                         first.setdefault(nm, y)
         for nm, c_ in counts.items():
@@ -147,6 +169,26 @@ def check(E: Engine, rep: Report, pid: str, rule: str = "NET", extra_modules: tu
                 rep.excepted(rule, key + "|loop-variable-read-after-loop", allowed[1], E.where(f, first[nm]))
             else:
                 rep.violation(rule, key + "|loop-variable-read-after-loop", f"{f.short} reads the loop variable `{nm}` after its loop ({c_} read(s)" + (f", {allowed[0]} confirmed" if allowed else "") + "): it then holds the element of the LAST iteration, which is rarely the one meant (first element / a specific one)", E.where(f, first[nm]))
+    # DIRECT: a public accessor that returns a private attribute as it is hands out the object's own storage; the
+    # confirmed ones return immutable values.  A new one is what remains when a defensive copy / conversion
+    # (`dict(self._x)`, `self._x.copy()`, `tuple(self._x)`) is dropped.
+    n_dir = 0
+    for f in E.P.all_functions():
+        if f.kind in ("overload", "setter") or f.module.name not in mods or f.cls is None or f.name.startswith("_"):
+            continue
+        for r_ in ast.walk(f.node):
+            if not (isinstance(r_, ast.Return) and r_.value is not None):
+                continue
+            v = r_.value
+            while isinstance(v, ast.Call) and isinstance(v.func, ast.Name) and v.func.id == "cast" and len(v.args) == 2:
+                v = v.args[1]
+            if isinstance(v, ast.Attribute) and isinstance(v.value, ast.Name) and v.value.id == "self" and v.attr.startswith("_") and not v.attr.startswith("__"):
+                n_dir += 1
+                key = f.short
+                if key in DIRECT_RETURN_ALLOWED:
+                    rep.excepted(rule, key + "|returns-private-attribute-directly", "confirmed immutable / deliberately shared: " + DIRECT_RETURN_ALLOWED[key], E.where(f, r_))
+                else:
+                    rep.violation(rule, key + "|returns-private-attribute-directly", f"{f.short} returns `self.{v.attr}` itself: unless that attribute is immutable, callers can now edit the object's own storage (a dropped copy / conversion)", E.where(f, r_))
     # QUANT: a rejection over an array comparison is existential -- `if np.any(<violation>): raise` or
     # `if not np.all(<requirement>): raise`.  `np.all(<violation>)` (or `not np.any(<requirement>)`) only rejects
     # inputs that are wrong everywhere and lets partly wrong ones through (12 sites on the tree, no exception).
@@ -178,4 +220,4 @@ def check(E: Engine, rep: Report, pid: str, rule: str = "NET", extra_modules: tu
             visit(n.test, False)
     if n_par < 5:
         rep.error(f"UNUSED: only {n_par} parameters inspected for {pid} (anchor modules not found?)")
-    return {"parameters_inspected": n_par, "locals_inspected": n_loc, "post_loop_reads": n_leak, "array_rejections": n_q}
+    return {"parameters_inspected": n_par, "locals_inspected": n_loc, "post_loop_reads": n_leak, "array_rejections": n_q, "direct_returns": n_dir}
